@@ -517,6 +517,13 @@ func trimShape(p *Prog, fn *ssa.Function, bufField string) string {
 			}
 			if edgeDominates(ifs.Block(), ifs.Block().Succs[0], c.Block()) {
 				guard = describe(bo.X) + bo.Op.String() + describe(bo.Y)
+				// a > b is b < a: one spelling per comparison
+				switch bo.Op {
+				case token.GTR:
+					guard = describe(bo.Y) + token.LSS.String() + describe(bo.X)
+				case token.GEQ:
+					guard = describe(bo.Y) + token.LEQ.String() + describe(bo.X)
+				}
 			}
 		})
 		shape = "if " + guard + " then Next(" + arg + ")"
@@ -532,8 +539,19 @@ func ruleC13F4(r *Run) {
 	if enc == nil || dec == nil {
 		return
 	}
-	se := trimShape(p, enc, "/transport/websocket.Transport.writeWindowBuf")
-	sd := trimShape(p, dec, "/transport/websocket.Transport.readWindowBuf")
+	// the trim and the priming of the dictionary may sit in unexported helpers of the two functions
+	// (deflateWithWindowLocked, trimWriteWindowLocked): the first of the function and its helpers that has the shape
+	shapeOf := func(fn *ssa.Function, fld string) string {
+		out := ""
+		p.withHelpers(fn, 2, func(g *ssa.Function) {
+			if out == "" {
+				out = trimShape(p, g, fld)
+			}
+		})
+		return out
+	}
+	se := shapeOf(enc, "/transport/websocket.Transport.writeWindowBuf")
+	sd := shapeOf(dec, "/transport/websocket.Transport.readWindowBuf")
 	r.Check("trim rules agree", se != "" && se == sd, p.pos(enc.Pos()), "websocket", fmt.Sprintf("write side: %q; read side: %q (if they differ the two peers' dictionaries diverge after the window fills)", se, sd))
 	r.Check("trim keeps the last window", se == "if W<L then Next(L-W)", p.pos(enc.Pos()), "websocket", "the trim must drop exactly Len()-WindowSize() bytes when the buffer exceeds the window: "+se)
 	// the dictionary handed to flate is the window buffer; the bytes appended to it are the uncompressed message
@@ -542,7 +560,10 @@ func ruleC13F4(r *Run) {
 		fn        *ssa.Function
 		ctor, fld string
 	}{{enc, "compress/flate.NewWriterDict", "/transport/websocket.Transport.writeWindowBuf"}, {dec, "compress/flate.NewReaderDict", "/transport/websocket.Transport.readWindowBuf"}} {
-		cs := findCalls(x.fn, false, x.ctor)
+		var cs []ssa.Instruction
+		p.withHelpers(x.fn, 2, func(g *ssa.Function) {
+			cs = append(cs, findCalls(g, false, x.ctor)...)
+		})
 		if len(cs) != 1 {
 			okDict = false
 			continue
@@ -988,14 +1009,26 @@ func ruleDictLongEnough(r *Run, id string) {
 	r.Begin(id, "deflate dictionaries are long enough: every call of compress/flate.NewWriterDict in the module is dominated by a test that the dictionary (or the window it is cut to) has at least 64 bytes — shorter ones are emitted as message content when the first block is stored", 0)
 	p := r.P
 	n := 0
+	perSite := map[string]int{}
 	for _, fn := range p.Funcs {
 		if !strings.HasPrefix(fnPkgPath(fn), modPath+"/") || fn.Blocks == nil {
 			continue
 		}
-		k := 0
 		for _, c := range findCalls(fn, false, "compress/flate.NewWriterDict") {
 			n++
-			k++
+			// the obligation is named after what the dictionary is primed from, not after the function the call happens
+			// to live in: a finding recorded for it stays the same finding when the call moves into a helper
+			site := strings.TrimPrefix(fnPkgPath(fn), modPath+"/") + " dictionary from ?"
+			if args := instrCall(c).Args; len(args) > 0 {
+				for _, l := range p.Leaves(args[len(args)-1], provOpts{}) {
+					if strings.HasPrefix(l, "field:") {
+						site = strings.TrimPrefix(fnPkgPath(fn), modPath+"/") + " dictionary from " + strings.TrimPrefix(l, "field:")
+						break
+					}
+				}
+			}
+			perSite[site]++
+			k := perSite[site]
 			ok := false
 			allInstrs(fn, func(ins ssa.Instruction) {
 				ifs, isIf := ins.(*ssa.If)
@@ -1046,7 +1079,7 @@ func ruleDictLongEnough(r *Run, id string) {
 					ok = true
 				}
 			})
-			r.Check(fmt.Sprintf("%s NewWriterDict#%d", fnName(fn), k), ok, posOf(p, c), fnName(fn), "no test of the dictionary's length dominates this call: with a window of 32 bytes or less (cwinbits <= 5, which Validate accepts) an incompressible message written after the window has content is read by the peer with the window's bytes in front of it")
+			r.Check(fmt.Sprintf("%s NewWriterDict#%d", site, k), ok, posOf(p, c), fnName(fn), "no test of the dictionary's length dominates this call: with a window of 32 bytes or less (cwinbits <= 5, which Validate accepts) an incompressible message written after the window has content is read by the peer with the window's bytes in front of it")
 		}
 	}
 	r.Stat("newwriterdict_calls", n)
